@@ -238,7 +238,7 @@ theorem annotateLine_concat : ∀ (ps : List PageErr) (acc : Str), '\n' ∉ acc 
       have : annotateLine (acc ++ ['\n']) (p :: r) = annotateLine (acc ++ ['\n']) r := by
         simp [annotateLine, hp]
       rw [this, hr acc hacc]
-      simp [List.filterMap_cons, hb]
+      simp [hb]
     | some bx =>
       obtain ⟨b, x⟩ := bx
       have hb : annotBody p = some (render x).dropLast := by simp [annotBody, hp]
@@ -253,6 +253,6 @@ theorem annotateLine_concat : ∀ (ps : List PageErr) (acc : Str), '\n' ∉ acc 
           simp
         cases b <;> simp only [annotateLine, List.foldl_cons, hp, h1, h2]
       rw [hstep, hr _ (by simp [hacc, hnl])]
-      simp [List.filterMap_cons, hb]
+      simp [hb]
 
 end Cppcheck.Html
